@@ -573,6 +573,22 @@ def _sample_by_interpretation(ctx):
             want = f'{ly}_{cell}' if cell is not None else (f'{ly}_BULK' if ly else None)
             if rd.get('SM') != want:
                 return (False, n, {'tags of the record': tags, 'SM written': rd.get('SM'), 'SM expected': want})
+            # what the read name says replaces what an earlier tool left on the alignment under the same key
+            stale = {k_: 'STALE' for k_ in ('BC', 'RX', 'LY') if k_ in tags}
+            if stale:
+                rd2 = dict(stale)
+                env2 = dict(mc)
+                for mn_, md_ in helpers.items():
+                    env2.setdefault('self.' + mn_, LocalFn(md_, env2, bound='<self>'))
+                env2['self.tags'] = dict(tags)
+                env2['self.tagDefinitions'] = {}
+                try:
+                    run_function(t, ['<self>', '<read>'], env=env2, call_hook=lambda ev, call, env_, rd=rd2: hook(ev, call, env_, rd), is_subclass=ctx.ix.is_subclass_name)
+                except Raised:
+                    continue
+                kept = {k_: rd2.get(k_) for k_ in stale if rd2.get(k_) != tags[k_]}
+                if kept:
+                    return (False, n, {'tags of the record': tags, 'tags already on the alignment': stale, 'on the alignment afterwards': kept, 'expected': {k_: tags[k_] for k_ in kept}})
     except Exception:
         return None
     return (True, n, None)
